@@ -77,6 +77,7 @@ func TestCheck(t *testing.T) {
 				r.Bucket("db_calls:restored:"+k, int64(v))
 			}
 		}
+		runBackend(r, round)
 		runSyncDuringCreate(r, round)
 		runHumanOverlap(r, round)
 		runConcurrent(r, t, round)
@@ -84,54 +85,59 @@ func TestCheck(t *testing.T) {
 
 	// Coverage gates: the monitor must have seen every kind of decision.
 	for b, min := range map[string]int64{
-		"recognised":                               2000,
-		"attributed_entitled":                      3000,
-		"auth_failure_served_anonymous":            800,
-		"anonymous_served":                         5000,
-		"anonymous_despite_invalid_carrier":        2000,
-		"unknown_dedicated_dropped":                100,
-		"not_attributed:deleted":                   1500,
-		"not_attributed:detached":                  1500,
-		"attributed_auto_device":                   8,
-		"attributed_via:doh-user":                  100,
-		"attributed_via:doh-path":                  100,
-		"attributed_via:sni":                       300,
-		"attributed_via:edns":                      100,
-		"attributed_via:dedicated":                 50,
-		"attributed_via:linked":                    50,
-		"proto:dns":                                2000,
-		"proto:dot":                                1000,
-		"proto:doq":                                500,
-		"proto:doh":                                5000,
-		"proto:dnscrypt":                           200,
-		"e2e_requests:e2e-doh":                     200,
-		"e2e_requests:e2e-dot":                     150,
-		"e2e_requestinfo_userinfo_as_assumed":      200,
-		"e2e_requestinfo_sni_as_assumed":           300,
-		"db_calls:real:device-id":                  1000,
-		"db_calls:real:linked-ip":                  80,
-		"db_calls:real:dedicated-ip":               100,
-		"e2e_wire_sni_confirmed":                   500,
-		"e2e_host_header_cases":                    200,
-		"e2e_host_header_cases_without_sni":        100,
-		"cases:restored":                           15000,
-		"restored_cases_dohonly_device":            1000,
-		"db_calls:restored:device-id":              1000,
-		"badhash_wrong_or_empty_password_cases":    3000,
-		"human_overlap_pairs":                      20,
-		"human_overlap_auto_devices":               40,
-		"concurrent_noncanonical_human_ids":        300,
-		"syncrace_creates_in_flight_during_sync":   2,
-		"syncrace_cases":                           1000,
-		"syncrace_cases:deleted":                   400,
-		"syncrace_cases:detached":                  400,
-		"concurrent_requests":                      4000,
-		"concurrent_prior_unknown_dedicated_drops": 16,
-		"concurrent_unknown_dedicated_drops":       100,
-		"concurrent_same_handler_overlap_pairs":    2000,
-		"concurrent_recognised":                    500,
-		"concurrent_anonymous_served":              500,
-		"db_calls:real:human-id":                   20,
+		"recognised":                                      2000,
+		"attributed_entitled":                             3000,
+		"auth_failure_served_anonymous":                   800,
+		"anonymous_served":                                5000,
+		"anonymous_despite_invalid_carrier":               2000,
+		"unknown_dedicated_dropped":                       100,
+		"not_attributed:deleted":                          1500,
+		"not_attributed:detached":                         1500,
+		"attributed_auto_device":                          8,
+		"attributed_via:doh-user":                         100,
+		"attributed_via:doh-path":                         100,
+		"attributed_via:sni":                              300,
+		"attributed_via:edns":                             100,
+		"attributed_via:dedicated":                        50,
+		"attributed_via:linked":                           50,
+		"proto:dns":                                       2000,
+		"proto:dot":                                       1000,
+		"proto:doq":                                       500,
+		"proto:doh":                                       5000,
+		"proto:dnscrypt":                                  200,
+		"e2e_requests:e2e-doh":                            200,
+		"e2e_requests:e2e-dot":                            150,
+		"e2e_requestinfo_userinfo_as_assumed":             200,
+		"e2e_requestinfo_sni_as_assumed":                  300,
+		"db_calls:real:device-id":                         1000,
+		"db_calls:real:linked-ip":                         80,
+		"db_calls:real:dedicated-ip":                      100,
+		"e2e_wire_sni_confirmed":                          500,
+		"e2e_host_header_cases":                           200,
+		"e2e_host_header_cases_without_sni":               100,
+		"cases:restored":                                  15000,
+		"restored_cases_dohonly_device":                   1000,
+		"db_calls:restored:device-id":                     1000,
+		"badhash_wrong_or_empty_password_cases":           3000,
+		"cases:backend":                                   10000,
+		"backend_cases:deleted":                           2000,
+		"backend_cases:detached":                          2000,
+		"backend_cases:live":                              2000,
+		"backend_cases_profile_without_devices_in_update": 2000,
+		"human_overlap_pairs":                             20,
+		"human_overlap_auto_devices":                      40,
+		"concurrent_noncanonical_human_ids":               300,
+		"syncrace_creates_in_flight_during_sync":          2,
+		"syncrace_cases":                                  1000,
+		"syncrace_cases:deleted":                          400,
+		"syncrace_cases:detached":                         400,
+		"concurrent_requests":                             4000,
+		"concurrent_prior_unknown_dedicated_drops":        16,
+		"concurrent_unknown_dedicated_drops":              100,
+		"concurrent_same_handler_overlap_pairs":           2000,
+		"concurrent_recognised":                           500,
+		"concurrent_anonymous_served":                     500,
+		"db_calls:real:human-id":                          20,
 	} {
 		r.Require(b, min)
 	}
